@@ -1375,3 +1375,77 @@ func j5FreshMap(v ssa.Value, pkg string, depth int) bool {
 	}
 	return false
 }
+
+// ---- round 5: a boolean result of a function with several results, read as a predicate ----------------
+
+// j5TupleWays is the *ssa.Call case of ipG2.ways for `ex`, result number ex.Index of a call of a
+// same-package function with SEVERAL results (typically (bool, error)): the ways `ex == truth` can
+// hold are, per return of the callee whose value for that result can be truth, the conditions that
+// dominate that return, in the callee's frame (parameters bound to the arguments of this very
+// call). ok is false when the call is not of that kind or cannot be expanded (the caller keeps
+// the condition as an opaque atom). A result that lives in memory (named result of a function
+// with defer) is only read when no deferred closure can assign it.
+func (a *ipG2) j5TupleWays(ex *ssa.Extract, truth bool, self ipAlt, fr *ipFrame, depth int, busy map[*ssa.Function]bool) ([]ipAlt, bool) {
+	call, isCall := ex.Tuple.(*ssa.Call)
+	if !isCall || call.Call.IsInvoke() {
+		return nil, false
+	}
+	callee := call.Call.StaticCallee()
+	if !a.local(callee) || busy[callee] || call.Call.Value != ssa.Value(callee) {
+		return nil, false
+	}
+	res := callee.Signature.Results()
+	if res.Len() < 2 || ex.Index >= res.Len() || !ipIsBool(res.At(ex.Index).Type()) {
+		return nil, false
+	}
+	busy[callee] = true
+	defer delete(busy, callee)
+	frame := &ipFrame{call: call, up: fr}
+	var out []ipAlt
+	for i, ret := range returnsOf(callee) {
+		rv := ret.Results[ex.Index]
+		if ld, isLoad := rv.(*ssa.UnOp); isLoad && ld.Op == token.MUL {
+			if al, isAlloc := ld.X.(*ssa.Alloc); !isAlloc || !g8ReadOnlyCaptured(al, 0) {
+				return nil, false
+			}
+		}
+		sub := a.ways(rv, truth, frame, depth+1, busy)
+		if len(sub) == 0 {
+			continue // this return never yields the value
+		}
+		ctx := a.allWays(ipAtoms(condsAt(ret.Block()), frame), depth+1, busy)
+		here := ipAlt{
+			conds: self.conds, // the result itself stays visible as a condition
+			ends:  []ipEnd{{ret.Block(), frame}},
+			via:   []string{fmt.Sprintf("%s return #%d", fnName(callee), i+1)},
+		}
+		out = append(out, ipCross(ipCross([]ipAlt{here}, sub), ctx)...)
+		if len(out) > ipMaxAlts {
+			return nil, false
+		}
+	}
+	return out, true
+}
+
+// j5ExistenceTest: condition cd (values of frame cd.fr) is the outcome of an existence test of a
+// file - the error of os.Open / os.OpenFile / os.Stat / os.Lstat compared with nil. success: the
+// condition holds on the nil (the file is there) side.
+func j5ExistenceTest(cd ipCond) (call *ssa.Call, name string, success, ok bool) {
+	b, isB := cd.V.(*ssa.BinOp)
+	if !isB || (b.Op != token.EQL && b.Op != token.NEQ) || !isNilConst(b.Y) {
+		return nil, "", false, false
+	}
+	ex, isEx := origin(b.X).(*ssa.Extract)
+	if !isEx {
+		return nil, "", false, false
+	}
+	call, isCall := ex.Tuple.(*ssa.Call)
+	if !isCall || errResult(call) != ssa.Value(ex) {
+		return nil, "", false, false
+	}
+	name = callName(&call.Call)
+	if name != "os.Open" && name != "os.Stat" && name != "os.Lstat" && name != "os.OpenFile" {
+		return nil, "", false, false
+	}
+	return call, name, (b.Op == token.EQL) == cd.Truth, true
+}
